@@ -147,7 +147,7 @@ def coq_prop(prop_file, timeout=1500):
 def hygiene():
     """no Admitted/admit/Axiom/... anywhere in the development"""
     bad = []
-    for f in coq_files() + ["extract/Extract.v"]:
+    for f in coq_files():
         p = os.path.join(COQ, f)
         if not os.path.exists(p):
             continue
@@ -166,41 +166,57 @@ def file_hash(paths):
     return h.hexdigest()
 
 
-def build_driver(timeout=600):
-    """extract the run_* interpreters and build the OCaml driver (cached by hash)"""
+def build_driver(name, timeout=600):
+    """extract run_<name> (coq/model/Run<NAME>.v) and build the OCaml driver
+    target/model_<name> (cached by content hash of the model sources)"""
     os.makedirs(TARGET, exist_ok=True)
+    up = name.upper()
     models = sorted(glob.glob(os.path.join(COQ, "model", "*.v")))
     srcs = models + [os.path.join(COQ, "gen", "Consts.v"),
-                     os.path.join(COQ, "extract", "Extract.v"),
                      os.path.join(COQ, "extract", "driver.ml")]
     srcs = [s for s in srcs if os.path.exists(s)]
     h = file_hash(srcs)
-    stamp = os.path.join(TARGET, "model_driver.hash")
-    exe = os.path.join(TARGET, "model_driver")
+    stamp = os.path.join(TARGET, "model_%s.hash" % name)
+    exe = os.path.join(TARGET, "model_%s" % name)
     if os.path.exists(exe) and os.path.exists(stamp) and open(stamp).read() == h:
         return True, "cached"
-    vos = [os.path.relpath(m, COQ)[:-2] + ".vo" for m in models if os.path.basename(m).startswith("Run")]
-    rc, out = coq_make(vos, timeout)
+    rc, out = coq_make(["model/Run%s.vo" % up], timeout)
     if rc != 0:
         return False, out
-    gen = os.path.join(COQ, "extract", "gen")
+    gen = os.path.join(COQ, "extract", "gen", name)
     os.makedirs(gen, exist_ok=True)
-    rc, out2 = sh("coqc -Q model Compio.Model -Q gen Compio.Gen extract/Extract.v", timeout, cwd=COQ)
+    ev = os.path.join(gen, "Extract_%s.v" % name)
+    open(ev, "w").write(EXTRACT_TEMPLATE % {"UP": up, "name": name})
+    rc, out2 = sh("coqc -Q ../../../model Compio.Model -Q ../../../gen Compio.Gen Extract_%s.v" % name,
+                  timeout, cwd=gen)
     if rc != 0:
         return False, out + out2
-    rc, out3 = sh("cp ../driver.ml . && ocamlfind ocamlopt -w -a models.mli models.ml driver.ml -o %s" % exe,
-                  timeout, cwd=gen)
+    drv = open(os.path.join(COQ, "extract", "driver.ml")).read().replace("@RUN@", "run_" + name)
+    open(os.path.join(gen, "driver.ml"), "w").write(drv)
+    rc, out3 = sh("ocamlfind ocamlopt -w -a models.mli models.ml driver.ml -o %s" % exe, timeout, cwd=gen)
     if rc != 0:
         return False, out + out2 + out3
     open(stamp, "w").write(h)
     return True, out + out2 + out3
 
 
+# Extraction directives used (the whole list): ExtrOcamlBasic only.
+EXTRACT_TEMPLATE = """(* generated by tools/vlib.py *)
+Require Extraction.
+Require Import ExtrOcamlBasic.
+From Compio.Model Require Run%(UP)s.
+Extraction Language OCaml.
+Set Extraction KeepSingleton.
+Extraction "models.ml" Run%(UP)s.run_%(name)s.
+"""
+
+
 # ---------------------------------------------------------------------------
 # Rust side
 
-def build_harness(bin_name, features, timeout=1700, release=False, extra_rustflags=""):
-    hdir = os.path.join(ROOT, "harness")
+def build_harness(bin_name, package, timeout=1700, release=False, extra_rustflags="", features=None):
+    """cargo build of one harness binary (harness/<package>) against /repo's working tree"""
+    hdir = os.path.join(ROOT, "harness", package)
     lock = os.path.join(hdir, "Cargo.lock")
     if not os.path.exists(lock):
         import shutil
@@ -270,8 +286,8 @@ def run_impl(exe, cases_path, n, timeout=600, env=None):
 
 
 def run_model(name, cases_path, timeout=600):
-    exe = os.path.join(TARGET, "model_driver")
-    rc, out = sh("%s %s < %s" % (exe, name, cases_path), timeout)
+    exe = os.path.join(TARGET, "model_%s" % name)
+    rc, out = sh("%s < %s" % (exe, cases_path), timeout)
     if rc != 0:
         raise RuntimeError("model driver failed (%d): %s" % (rc, out[-2000:]))
     return parse_lines(out)
